@@ -19,13 +19,16 @@ ASSUMPTIONS = ['mode strings (non-string modes are rejected by the same membersh
 
 def cases(seed, tier):
     rng = random.Random(seed * 5 + 11)
-    combos = list(itertools.product(W + O + A + AO + BAD, OLD, [None, 'r', 'r/zz'], [True, False, None], ['root', 'inner', 'unrooted']))
+    combos = list(itertools.product(W + O + A + AO + BAD, OLD, [None, 'r', 'r/zz'], [True, False, None], ['root', 'inner', 'unrooted', 'list', 'arr', 'dict']))
     if tier == 'quick':
         # keep every (mode, old, emdpath) triple, sample the rest
         keep = {}
         for c in combos:
             keep.setdefault(c[:3], []).append(c)
         combos = [rng.choice(v) for v in keep.values()] + rng.sample(combos, 300)
+        # every (write/overwrite spelling, old content, input kind) without emdpath
+        combos += [(m, o, None, rng.choice([True, False, None]), t) for m in W + O for o in OLD
+                   for t in ['root', 'inner', 'unrooted', 'list', 'arr', 'dict']]
     out = []
     for mode, old, ep, tr, tgt in combos:
         t = T.rand_tree(rng, 'r', rng.choice([2, 3, 5]), names=['a', 'b', 'c', 'd'], md_p=0.3)
@@ -40,10 +43,18 @@ def cases(seed, tier):
         elif old in ('emd', 'emd_other'):
             steps.append({'op': 'save', 'file': 0, 'top': 1, 'tp': [], 'mode': 'w', 'tree': True})
         main = {'op': 'save', 'file': 0, 'top': top, 'tp': tp, 'mode': mode, 'tree': tr, 'main': True}
+        if tgt == 'list':
+            main['input'] = {'kind': rng.choice(['list', 'tuple']), 'items': [{'kind': 'top', 'top': 0, 'tp': []}, {'kind': 'top', 'top': 2, 'tp': []},
+                                                                               {'kind': 'arr', 'tok': T.fresh_tok(), 'rank': 1}][:rng.choice([1, 2, 3])]}
+        elif tgt in ('arr', 'dict'):
+            main['input'] = {'kind': tgt, 'tok': T.fresh_tok(), 'rank': 1}
         if ep is not None:
             main['emdpath'] = ep.replace('r', oldt['name'], 1) if old == 'emd_other' else ep
         steps.append(main)
-        steps.append({'op': 'save', 'file': 1, 'top': top, 'tp': tp, 'mode': 'w', 'tree': tr, 'ref': True})
+        ref = {'op': 'save', 'file': 1, 'top': top, 'tp': tp, 'mode': 'w', 'tree': tr, 'ref': True}
+        if 'input' in main:
+            ref['input'] = main['input']
+        steps.append(ref)
         out.append({'tops': tops, 'steps': steps, 'old': old})
     return out
 
@@ -88,7 +99,7 @@ def pick_smallest(cases_, idxs):
 
 
 def nontrivial(cases_, results):
-    return len({(s['mode'], c['old'], s.get('emdpath'), s['tree'], s['top'], bool(s['tp'])) for c in cases_ for s in c['steps'] if s.get('main')})
+    return len({(s['mode'], c['old'], s.get('emdpath'), s['tree'], s.get('top'), bool(s.get('tp')), (s.get('input') or {}).get('kind')) for c in cases_ for s in c['steps'] if s.get('main')})
 
 
 def samples(cases_, results):
